@@ -263,6 +263,28 @@ async def coro_send_value(b, i, ag, which):
     return "sent-done"
 
 
+class CustomAiter:
+    """an async iterator written as a class: __anext__ is a coroutine function whose frame continues the chain"""
+
+    def __init__(self, b, i, ml):
+        self.b, self.i, self.ml = b, i, ml
+
+    def __aiter__(self):
+        return self
+
+    async def __anext__(self):
+        try:
+            if self.ml:
+                await (
+                    nxt(self.b, self.i)
+                )
+            else:
+                await nxt(self.b, self.i)
+            return 1
+        finally:
+            self.b.unwound.append(sys._getframe())
+
+
 class ExitAwaiter:
     """async context manager whose __aexit__ is what continues the chain: the frame that used it is then observed
     suspended inside its own manager's exit, where older interpreters report the last body line, newer ones the with line"""
@@ -409,6 +431,21 @@ def nxt(b, i):
     if kind in ("asend", "anext"):
         ag = b.reg(agen_frame(b, j, kind, ml))
         return ag.asend(None) if kind == "asend" else ag.__anext__()
+    if kind in ("anext_builtin", "anext_default", "anext_custom", "anext_custom_default"):
+        # the anext() builtin (3.10+): its two-argument form wraps the __anext__() result in another awaitable; a
+        # custom async iterator's __anext__ is a coroutine function.  On 3.9 these are the plain __anext__ link.
+        custom = "custom" in kind
+        if custom:
+            src = CustomAiter(b, j, ml)
+        else:
+            src = b.reg(agen_frame(b, j, "anext", ml))
+        if sys.version_info < (3, 10):
+            return src.__anext__() if not custom else b.reg(src.__anext__())
+        import builtins
+        if kind.endswith("default"):
+            return builtins.anext(src, "dflt")
+        aw = builtins.anext(src)
+        return b.reg(aw) if custom else aw
     if kind == "async_for":
         ag = b.reg(agen_frame(b, j, kind, ml))
         return b.reg(coro_async_for(b, j, ag))
